@@ -43,10 +43,21 @@ MIL = [0x00000000, 0x40000000, 0x7FFFFF7F, 0x80000000, 0x40000080, 0x7FFFFF80, 0
 
 
 def tables():
-    """the translated part of the model: NumericDataEncoding._twos_complement is turned into Gallina from the current source and
-    proved equal to Model/Decode.v's twos_complement (Gen/FunOk_C04.v) on every run"""
+    """the translated part of the model: NumericDataEncoding._twos_complement and IntegerDataEncoding._get_raw_value are turned into
+    Gallina from the current source (on top of the cursor methods of packets.py, Gen/Fun_C03.v) and proved equal to Model/Decode.v's
+    twos_complement and to raw_numeric on integer encodings (Gen/FunOk_C04.v) on every run"""
     import gen_fun
-    return gen_fun.check("C04", [("space_packet_parser/xtce/encodings.py", "_twos_complement", "gen_twos_complement")], "FunOk_C04")
+    from props import c03
+    ok, msg = gen_fun.check("C03", c03.fun_items(), "FunOk_C03")
+    if not ok:
+        return ok, msg
+    enc = "space_packet_parser/xtce/encodings.py"
+    return gen_fun.check("C04", [(enc, "_twos_complement", "gen_twos_complement"),
+                                 ("objmethod", enc, "IntegerDataEncoding", "_get_raw_value", "gen_int_raw", {"size_in_bits": "size_in_bits"},
+                                  {("byte_order", "leastSignificantByteFirst"): "is_lsb", ("encoding", "unsigned"): "is_unsigned"},
+                                  {"read_as_int": "gen_read_as_int", "read_as_bytes": "gen_read_as_bytes"},
+                                  {"_twos_complement": "gen_twos_complement"})],
+                         "FunOk_C04", imports="From SPP Require Import Gen.Fun_C03.\n")
 
 
 def gen(rng, tier):
